@@ -361,10 +361,55 @@ end Np.Generated
 """
 
 
+def signatures() -> list:
+    """(numpy qualified name, numpy's parameters or None, the implementation's parameters) for every registry entry"""
+    import inspect
+    from numpoly import dispatch
+    kinds = {"POSITIONAL_ONLY": "pos", "POSITIONAL_OR_KEYWORD": "pos", "KEYWORD_ONLY": "kwonly", "VAR_POSITIONAL": "varpos",
+             "VAR_KEYWORD": "varkw"}
+
+    def params(f):
+        try:
+            sig = inspect.signature(f)
+        except (ValueError, TypeError):
+            return None
+        out = []
+        for p in sig.parameters.values():
+            d = None if p.default is inspect.Parameter.empty else repr(p.default)
+            if d is not None and d.startswith("<") and "at 0x" in d:
+                d = "<object>"
+            out.append((p.name, kinds[p.kind.name], d))
+        return out
+    seen, rows = set(), []
+    for coll in (dispatch.UFUNC_COLLECTION, dispatch.FUNCTION_COLLECTION):
+        for npf, impl in coll.items():
+            name = qualname(npf)
+            if name in seen:
+                continue
+            seen.add(name)
+            rows.append((name, params(npf), params(impl) or []))
+    return sorted(rows)
+
+
+def render_signatures() -> str:
+    def par(p):
+        d = "none" if p[2] is None else f"some {lean_str(p[2])}"
+        return f"⟨{lean_str(p[0])}, .{p[1]}, {d}⟩"
+
+    def plist(ps):
+        return "[" + ", ".join(par(p) for p in ps) + "]"
+    rows = []
+    for name, npp, impl in signatures():
+        rows.append(f"⟨{lean_str(name)}, {'none' if npp is None else 'some ' + plist(npp)}, {plist(impl)}⟩")
+    return ("import Np.Model.Signatures\n/-! GENERATED by harness/extract.py from /repo and the installed numpy on every run - do not edit. -/\n"
+            "namespace Np.Generated\nopen Np.Sig\n\n/-- call signature of every registry entry: numpy's own and the implementation's -/\n"
+            "def signatures : List Entry := " + lean_list(rows, per_line=1) + "\nend Np.Generated\n")
+
+
 def write_generated() -> list:
     os.makedirs(GEN_DIR, exist_ok=True)
     t = tables()
-    files = {"Tables.lean": render_tables(t)}
+    files = {"Tables.lean": render_tables(t), "Signatures.lean": render_signatures()}
     try:
         from . import writesites
         files["WriteSites.lean"] = writesites.render()
